@@ -8,7 +8,10 @@ A case is {"target": PV, "expr": E}:
   E   {"lit":PV} | {"T":[[dunder,E]…]} | {"Spec":E} | {"list":[E…]} | {"tuple":[E…]}
       | {"dict":[[E,E]…]} | {"call":{"args":[E…],"kwargs":[[name,E]…]}}
 run_impl builds the real objects from the case, runs glom.glom(target, T-expression) and —
-independently — applies the same chain of operations directly with Python's own operators.
+independently, on a fresh copy of the target — applies the same chain of operations directly with
+Python's own operators (arguments evaluated when their operation is reached; call arguments passed
+by value).  Both legs also report the target object as it is afterwards (`impl_after`,
+`direct_after`): recorded calls may change it (list.pop / append, dict.pop / setdefault).
 """
 import json
 import operator
@@ -22,8 +25,8 @@ LEAN_MODULES = ['Glom.Props.C02']
 FACT_FILES = ['TFacts', 'ExcFacts']
 READY = True
 MANIFEST = dict(
-    text="Lean 4 theorems, for every value type and every primitive semantics `prim` of getattr/subscription/arithmetic/calls (a parameter, so the statement is about glom's record-and-replay logic), every target and every T expression of any length and nesting of T / Spec(T) / list / tuple / dict arguments: `_t_eval` on the object recorded by the TType overloads (flat tuple, index stepping by 2, branch table, arg_val on every argument against the original target, calls routed through Call) equals the chain of operations applied directly (`c02_replay`); the first failing attribute/item/arithmetic step is PathAccessError(position), a failing call keeps its class (`c02_error_classes`); arguments are evaluated on the original target (`c02_args_from_root`); per-run facts obligation `c02_facts_wf` by `decide` on the tables regenerated from /repo: every op char recorded by a TType overload has a `_t_eval` branch performing the operation its dunder denotes (no recorded operation is dropped). Model tied to the code by a three-way differential check: real glom vs the same chain applied with Python's own operators vs the compiled Lean model/reference.",
-    note="trusted: Lean kernel + {propext, Classical.choice, Quot.sound}; extractor (TType overloads, _t_eval branch table, except clauses, part_idx expression); harness/driver; Python's primitive semantics is a theorem parameter, its executable instance (Glom/Model/C02Prim.lean: floor division, two's-complement bit ops, IEEE true division, slices, str/list/tuple/dict operations, a catalogue of callables) is validated on every case against CPython itself; hypothesis `hplain` (target data contains no glom spec objects: Call.glomit re-evaluates already evaluated arguments, counter-example kept as theorem); reading §6.1 (a failing call keeps its exception class; a failing nested T argument reports its own position); S/A roots, Path segments and wildcards are other properties.",
+    text="Lean 4 theorems, for every value type, every state type and every primitive semantics `prim` of getattr/subscription/arithmetic/calls — each operation takes a state and returns the state it leaves, so calls may CHANGE the target — (a parameter, so the statement is about glom's record-and-replay logic), every target, every start state and every T expression of any length and nesting of T / Spec(T) / list / tuple / dict arguments: `_t_eval` on the object recorded by the TType overloads (flat tuple, index stepping by 2, branch table, arg_val on every argument INSIDE the loop against the original target object in its current state, calls routed through Call) equals the chain of operations applied directly, left to right, as a pair (outcome, state left) — also when it ends with an error (`c02_replay`); the first failing attribute/item/arithmetic step is PathAccessError(position), a failing call keeps its class (`c02_error_classes`); a nested argument is evaluated on the original target object in the state left by the operations before it (`c02_args_from_root`); evaluating all arguments in front of the loop is NOT equivalent (`c02_hoisted_args_counterexample`); call arguments of type list/tuple/dict reach the callee by value, and the property is false without saying so (`c02_call_by_value_counterexample`); per-run facts obligation `c02_facts_wf` by `decide` on the tables regenerated from /repo: every op char recorded by a TType overload has a `_t_eval` branch performing the operation its dunder denotes (no recorded operation is dropped). Model tied to the code by a three-way differential check: real glom vs the same chain applied with Python's own operators vs the compiled Lean model/reference (instance: values with object identity in a heap), comparing outcome AND the target object afterwards.",
+    note="trusted: Lean kernel + {propext, Classical.choice, Quot.sound}; extractor (TType overloads, _t_eval branch table, except clauses, part_idx expression); harness/driver; Python's primitive semantics is a theorem parameter, its executable instance (Glom/Model/C02Heap.lean on top of C02Prim.lean: a heap of list/tuple/dict/object/slice/bound-method cells with identity, list.pop/append, dict.pop/setdefault/get, floor division, two's-complement bit ops, IEEE true division, slices, str/list/tuple/dict operations, a catalogue of callables) is validated on every case against CPython itself, including the final state of the target; hypothesis `Plain` (target data contains no glom spec objects: Call.glomit passes already evaluated arguments through arg_val again, which for plain data is by-value passing of list/tuple/dict; counter-example kept as theorem); reading §6.1 (a failing call keeps its exception class; a failing nested T argument reports its own position); S/A roots, Path segments and wildcards are other properties.",
     technique='Lean 4 refinement proof (flat ops loop + arg_val recursion = direct application of the operator chain, generic in the primitive semantics) + facts obligation by decide + three-way differential correspondence',
     ref='DESIGN.md §3 C02, §6.1')
 RULE = ('type-directed: a nested target (dict / list / tuple / attribute objects / str / int / bool / None / '
@@ -37,6 +40,11 @@ RULE = ('type-directed: a nested target (dict / list / tuple / attribute objects
         'failing one (missing key/attr, index out of range, wrong operand type, zero divisor, 0 ** -1, '
         'calling a non-callable, wrong arity, a called function raising Key/Value/Type/ZeroDivision/'
         'Attribute/IndexError, a failing nested T argument, an unhashable key in a dict argument). '
+        'Calls that change the target (list.pop([i]) / append(x), dict.pop(k[, d]) / setdefault(k, v)) are '
+        'ordinary steps; after one, the index of access paths is rebuilt so that later nested arguments read '
+        'the changed containers; templates T[l].pop() <op> T[l][i], … + len(T[l]), dict pop / setdefault then a '
+        'read of the same key; thorough: every (list op) x (later nested read) x (outer operator) on a small '
+        'list. Targets are trees (no object reachable by two paths) — sharing only arises during evaluation. '
         'non-trivial = at least two operations, or a failing chain, or a nested T argument; '
         'distinct = distinct (target, expression)')
 TRUSTED = ['Glom/Model/C02Prim.lean (executable instance of the primitive semantics) is validated against '
@@ -46,6 +54,11 @@ TRUSTED = ['Glom/Model/C02Prim.lean (executable instance of the primitive semant
 ASSUMPTIONS = ['targets are plain data: no glom spec objects (T, Spec, …) stored inside the target '
                '(Call.glomit passes already evaluated arguments through arg_val again: '
                'glom({"f": ident, "a": T["b"], "b": 5}, T["f"](T["a"])) == 5)',
+               'a recorded call passes list / tuple / dict arguments BY VALUE (the same second arg_val pass '
+               'rebuilds them): glom(t, T["f"](T["l"]).append(2)) with f = identity leaves t["l"] unchanged, '
+               't["f"](t["l"]).append(2) does not; the reference semantics says "by value" (Prim.passCall), '
+               'theorem c02_call_by_value_counterexample shows the property is false otherwise',
+               'the target is a tree when the evaluation starts (no object reachable by two paths)',
                'T-rooted expressions; S/A roots are C07, Path segments C01, wildcards C14',
                'Spec arguments wrap T expressions; Val/Call/other spec objects as arguments are outside the fragment',
                'reading DESIGN §6.1: an exception raised by a called function keeps its class; '
@@ -115,9 +128,10 @@ RAISERS = ['raise_value', 'raise_key', 'raise_type', 'raise_zero', 'raise_attr',
 METHODS = {'str': ['upper', 'count', 'index', 'startswith'], 'list': ['count', 'index', 'pop', 'append'],
            'tuple': ['count', 'index'], 'dict': ['get', 'pop', 'setdefault']}
 MUTATORS = ('pop', 'append', 'setdefault')
-# calls that change the target: generated only once the Lean model threads the target's state
-# through the replay (Model/C02Prim.lean `callMethod`); until then the stream stays within the model
-STATEFUL = False
+# calls that change the target: the Lean model threads the target's state through the replay
+# (Model/C02.lean: every function takes and returns the state; Model/C02Heap.lean: values with
+# object identity in a heap)
+STATEFUL = True
 
 # ---------------------------------------------------------------- PV codec
 
@@ -204,6 +218,26 @@ class DirectFail(Exception):
         self.obs = obs
 
 
+def by_value(v, cache=None):
+    """how a recorded call passes its function and arguments (the reference's `passCall`):
+    list / dict / tuple containers by value — rebuilt, members likewise, one copy per object and
+    pass —, every other object as it is.  Written independently of glom's `_ArgValuator`."""
+    cache = {} if cache is None else cache
+    t = type(v)
+    if t is list or t is dict:
+        if id(v) in cache:
+            return cache[id(v)]
+        res = cache[id(v)] = t()
+        if t is dict:
+            res.update({by_value(k, cache): by_value(x, cache) for k, x in v.items()})
+        else:
+            res.extend([by_value(x, cache) for x in v])
+        return res
+    if t in (tuple, set, frozenset):
+        return t([by_value(x, cache) for x in v])
+    return v
+
+
 def apply_op(d, cur, av):
     """the Python operation the dunder denotes, applied directly"""
     if d == '__getattr__':
@@ -212,7 +246,8 @@ def apply_op(d, cur, av):
         return cur[av]
     if d == '__call__':
         args, kwargs = av
-        return cur(*args, **kwargs)
+        f, a, k = by_value(cur), by_value(tuple(args)), by_value(dict(kwargs))
+        return f(*a, **k)
     if d == '__invert__':
         return ~cur
     if d == '__neg__':
@@ -232,11 +267,14 @@ def direct_arg(e, target):
     if 'tuple' in e:
         return tuple(direct_arg(x, target) for x in e['tuple'])
     if 'dict' in e:
-        pairs = [(direct_arg(k, target), direct_arg(v, target)) for k, v in e['dict']]
-        try:
-            return dict(pairs)
-        except Exception as ex:
-            raise DirectFail({'raised': type(ex).__name__})
+        out = {}                  # a dict display: key, value, insert — entry by entry
+        for k, v in e['dict']:
+            kk, vv = direct_arg(k, target), direct_arg(v, target)
+            try:
+                out[kk] = vv
+            except Exception as ex:
+                raise DirectFail({'raised': type(ex).__name__})
+        return out
     if 'call' in e:
         return ([direct_arg(x, target) for x in e['call']['args']],
                 {k: direct_arg(x, target) for k, x in e['call']['kwargs']})
@@ -246,7 +284,9 @@ def direct_arg(e, target):
 def direct_chain(steps, target):
     cur = target
     for k, (d, a) in enumerate(steps):
-        av = None if d in UNARY else direct_arg(a, target)   # arguments see the ORIGINAL target
+        # the argument is evaluated now — after the operations before it —, against the ORIGINAL
+        # target object in its current state
+        av = None if d in UNARY else direct_arg(a, target)
         try:
             cur = apply_op(d, cur, av)
         except Exception as ex:
@@ -310,7 +350,7 @@ def exc_name(e):
 def run_impl(case):
     import glom
     from glom import GlomError, PathAccessError
-    out = {k: v for k, v in case.items() if k not in ('impl', 'direct')}
+    out = {k: v for k, v in case.items() if k not in ('impl', 'direct', 'impl_after', 'direct_after')}
     target = dec(case['target'])
     if case.get('prebuild'):
         # a twin expression (equal-but-differently-typed literal at one position) written first in
@@ -329,8 +369,11 @@ def run_impl(case):
         out['impl'] = {'other': exc_name(e)}
     else:
         out['impl'] = {'ok': enc(res)}
+    out['impl_after'] = enc(target)          # what the recorded calls did to the target object
     # the same chain, applied directly with Python's own operators to a fresh copy of the target
-    out['direct'] = direct_obs(case['expr'], dec(case['target']))
+    fresh = dec(case['target'])
+    out['direct'] = direct_obs(case['expr'], fresh)
+    out['direct_after'] = enc(fresh)
     return out
 
 
@@ -733,7 +776,20 @@ class Gen:
         if o == 'unhashable':
             cands = [s for s, v in self.src if type(v) in (list, dict)]
             if cands:
-                return ['__getitem__', {'dict': [[{'T': r.choice(cands)}, lit(1)]]}]
+                entries = [[{'T': r.choice(cands)}, lit(1)]]
+                q = r.random()
+                if q < 0.25:
+                    # a later entry that would fail as well: never evaluated (the key is hashed first)
+                    entries.append([lit('k'), {'T': [['__getitem__', lit('nope')]]}])
+                elif q < 0.4:
+                    entries.insert(0, [lit('k'), {'T': [['__getattr__', lit('zz')]]}])
+                elif q < 0.6 and STATEFUL:
+                    # … or would change the target
+                    ls = [s for s, v in self.src if type(v) is list]
+                    if ls:
+                        entries.append([lit('k'), {'T': r.choice(ls) + [['__getattr__', lit('append')],
+                                                   ['__call__', {'call': {'args': [lit(1)], 'kwargs': []}}]]}])
+                return ['__getitem__', {'dict': entries}]
             return ['__getitem__', lit('zz')]
         return ['__getattr__', lit('zz')]
 
@@ -889,6 +945,8 @@ def generate(rng, tier, scale, **focus):
             yield stateful_templates(rng)
     if tier == 'thorough' and not focus:
         yield from exhaustive()
+        if STATEFUL:
+            yield from exhaustive_stateful()
 
 
 def exhaustive():
@@ -908,6 +966,39 @@ def exhaustive():
             yield {'target': enc(a), 'expr': {'T': [[d, lit(None)], [d, lit(None)]]}}
 
 
+def exhaustive_stateful():
+    """every (call changing a small list / dict) x (nested read of the same container afterwards)
+    x (outer operator), and the same with the read in front (hoisting would swap them)"""
+    call = lambda *a: ['__call__', {'call': {'args': [lit(x) for x in a], 'kwargs': []}}]
+    L = ['__getitem__', lit('l')]
+    D = ['__getitem__', lit('d')]
+    muts = [[L, ['__getattr__', lit('pop')], call()], [L, ['__getattr__', lit('pop')], call(0)],
+            [L, ['__getattr__', lit('pop')], call(1)], [L, ['__getattr__', lit('pop')], call(-2)],
+            [L, ['__getattr__', lit('append')], call(5)], [L, ['__getattr__', lit('pop')], call(7)],
+            [D, ['__getattr__', lit('pop')], call('a')], [D, ['__getattr__', lit('pop')], call('zz', 9)],
+            [D, ['__getattr__', lit('pop')], call('zz')],
+            [D, ['__getattr__', lit('setdefault')], call('a', 4)],
+            [D, ['__getattr__', lit('setdefault')], call('n', 4)]]
+    reads = [[L, ['__getitem__', lit(i)]] for i in (0, 1, -1, 2, 3)] + \
+            [[D, ['__getitem__', lit(k)]] for k in ('a', 'n')] + \
+            [[D, ['__getattr__', lit('get')], call('a', 100)],
+             [['__getitem__', lit('len')], ['__call__', {'call': {'args': [{'T': [L]}], 'kwargs': []}}]],
+             [['__getitem__', lit('len')], ['__call__', {'call': {'args': [{'T': [D]}], 'kwargs': []}}]],
+             [L, ['__getattr__', lit('pop')], call()]]
+    for n in (1, 3):
+        target = {'l': [10, 20, 30][:n], 'd': {'a': 1, 'b': 2}, 'len': len}
+        for m in muts:
+            for rd in reads:
+                for d in ('__add__', '__mul__', '__getitem__'):
+                    yield {'target': enc(target), 'expr': {'T': m + [[d, {'T': rd}]]}}
+                # the call as an ARGUMENT of a later operation on a value read before it
+                yield {'target': enc(target), 'expr': {'T': rd + [['__add__', {'T': m}]]}}
+                yield {'target': enc(target),
+                       'expr': {'T': [['__getitem__', lit('len')],
+                                      ['__call__', {'call': {'args': [{'list': [{'T': m}, {'T': rd}]}],
+                                                             'kwargs': []}}]]}}
+
+
 def corpus():
     out = [
         # the defect repaired by e2222c4: T // 2 was silently dropped
@@ -922,6 +1013,26 @@ def corpus():
         {'target': enc({'a': {'n': 1}, 'n': 5}),
          'expr': {'T': [['__getitem__', lit('a')], ['__getitem__', lit('n')],
                         ['__add__', {'T': [['__getitem__', lit('n')]]}]]}},
+        # a nested argument sees what the calls before it did to the target (seeded change C02-s2)
+        {'target': enc({'l': [10, 20, 30]}),
+         'expr': {'T': [['__getitem__', lit('l')], ['__getattr__', lit('pop')],
+                        ['__call__', {'call': {'args': [], 'kwargs': []}}],
+                        ['__add__', {'T': [['__getitem__', lit('l')], ['__getitem__', lit(-1)]]}]]}},
+        # list arguments reach the callee by value: the identity function returns a copy
+        {'target': enc({'f': ident, 'l': [1]}),
+         'expr': {'T': [['__getitem__', lit('f')],
+                        ['__call__', {'call': {'args': [{'T': [['__getitem__', lit('l')]]}], 'kwargs': []}}],
+                        ['__getattr__', lit('append')],
+                        ['__call__', {'call': {'args': [lit(2)], 'kwargs': []}}]]}},
+        # a new list shares its members with the old one
+        {'target': enc({'l': [[1], [2]]}),
+         'expr': {'T': [['__getitem__', lit('l')], ['__add__', {'list': []}], ['__getitem__', lit(0)],
+                        ['__getattr__', lit('append')],
+                        ['__call__', {'call': {'args': [lit(2)], 'kwargs': []}}]]}},
+        # the target keeps the change when a later operation fails
+        {'target': enc({'l': [1, 2]}),
+         'expr': {'T': [['__getitem__', lit('l')], ['__getattr__', lit('pop')],
+                        ['__call__', {'call': {'args': [], 'kwargs': []}}], ['__getitem__', lit('zz')]]}},
     ]
     p = os.path.join(os.path.dirname(os.path.dirname(os.path.dirname(os.path.abspath(__file__)))),
                      'corpus', 'C02.jsonl')
@@ -956,7 +1067,7 @@ def nontrivial(case, verdict):
 
 
 def shrink(case):
-    base = {k: v for k, v in case.items() if k not in ('impl', 'direct')}
+    base = {k: v for k, v in case.items() if k not in ('impl', 'direct', 'impl_after', 'direct_after')}
     steps = case['expr']['T']
     for i in range(len(steps)):
         c = dict(base)
